@@ -2,13 +2,21 @@
 From Verif Require Import Prelude Seq.
 
 Lemma bit64_spec k j : N.testbit (bit64 k) j = (j <? 64) && (k =? j).
-Proof. unfold bit64, trunc64. rewrite trunc_spec, onebit_spec. destruct (j <? 64); reflexivity. Qed.
+Proof.
+  unfold bit64. destruct (N.leb_spec 64 k) as [Hk|Hk].
+  - rewrite N.bits_0. destruct (N.ltb_spec j 64) as [Hj|Hj]; [|reflexivity].
+    replace (k =? j) with false by (symmetry; apply N.eqb_neq; lia). reflexivity.
+  - unfold trunc64. rewrite trunc_spec, onebit_spec. destruct (j <? 64); reflexivity.
+Qed.
 
 Lemma shl64_spec x d k :
   N.testbit (shl64 x d) k = (k <? 64) && negb (k <? d) && N.testbit x (k - d).
 Proof.
-  unfold shl64, trunc64. rewrite trunc_spec, shl_spec.
-  destruct (k <? 64), (k <? d); reflexivity.
+  unfold shl64. destruct (N.leb_spec 64 d) as [Hd|Hd].
+  - rewrite N.bits_0. destruct (N.ltb_spec k 64) as [Hk|Hk]; [|reflexivity].
+    replace (k <? d) with true by (symmetry; apply N.ltb_lt; lia). reflexivity.
+  - unfold trunc64. rewrite trunc_spec, shl_spec.
+    destruct (k <? 64), (k <? d); reflexivity.
 Qed.
 
 (* Invariant linking the window state to the list [acc] of everything accepted so far. *)
